@@ -454,6 +454,7 @@ func (fc *followerController) handleReplicateSync(stream proto.OxiaLogReplicatio
 			return
 		}
 		fc.Unlock()
+		verifYield("follower.sync.woken", FollowerController(fc))
 
 		oldHeadOffset := fc.wal.LastOffset()
 
